@@ -123,7 +123,7 @@ def install(pe):
     E[N + "array_equal"] = lambda pe, a, k: _array_equal(pe, a[0], a[1])
     E[N + "all"] = lambda pe, a, k: all(pe.truth(x) for x in (_asarr(pe, a[0]).flat() if isinstance(a[0], (Arr, list, tuple)) else [a[0]]))
     E[N + "any"] = lambda pe, a, k: any(pe.truth(x) for x in (_asarr(pe, a[0]).flat() if isinstance(a[0], (Arr, list, tuple)) else [a[0]]))
-    E[N + "isnan"] = lambda pe, a, k: False
+    E[N + "isnan"] = lambda pe, a, k: _isnan(pe, a[0])
     E[N + "isinf"] = lambda pe, a, k: isinstance(a[0], float)
     E[N + "isfinite"] = lambda pe, a, k: not isinstance(a[0], float)
     E[N + "geomspace"] = lambda pe, a, k: _geomspace(pe, a, k)
@@ -184,6 +184,8 @@ def install(pe):
         "numpy.inf": float("inf"),
         "math.inf": float("inf"),
         "numpy.newaxis": None,
+        "numpy.nan": _nan(),
+        "math.nan": _nan(),
         "numpy.euler_gamma": dag.sym("euler_gamma"),
         "numpy.float64": ExtRef("numpy.float64"),
         "numpy.complex128": ExtRef("numpy.complex128"),
@@ -208,6 +210,20 @@ def install(pe):
         return r
 
     pe.import_ref = import_ref_
+
+
+def _nan():
+    from .pe import NAN
+
+    return NAN
+
+
+def _isnan(pe, x):
+    from .pe import NaNTop
+
+    if isinstance(x, Arr):
+        return elementwise(lambda v: isinstance(v, NaNTop), x)
+    return isinstance(x, NaNTop)
 
 
 class _Logger:
